@@ -26,6 +26,10 @@ def make_workload(rng: random.Random):
         wl["ranks"].append({"priv": [rng.randint(1, 9) for _ in range(n_priv)], "extra_key": rng.random() < 0.3,
                             "prim": rng.randint(0, 99)})
     wl["shared_len"] = rng.choice([3, 8, 20])
+    # ranks > 0 pass their OWN path argument (documented: the path given by rank 0 is used); the io-concurrency knob is lowered
+    # by the application while an async snapshot is pending (between async_take and wait)
+    wl["diverge"] = rng.random() < 0.25
+    wl["conc_after"] = rng.choice([None, None, None, 1])
     return wl
 
 
@@ -49,6 +53,13 @@ def designed_workloads():
         dict(base, W=3, batching=True, slab=8, chunk=16, replicated=True, budget=64, shared_len=20, ranks=ranks([1, 1, 4], [2], [7, 1], extra=(1,))),
         # one rank only
         dict(base, W=1, batching=True, ranks=ranks([1, 2, 3, 4])),
+        # every rank passes its own path argument (rank 0's is used)
+        dict(base, W=3, diverge=True, batching=True, replicated=True, ranks=ranks([2, 3], [4], [1, 1])),
+        # the application lowers the io-concurrency knob while the async snapshot is pending
+        # (dispatched under a cap of 4 resp. the default cap, completed under a cap of 1; the sweeps fail these writes LATE, so
+        # that the failing write completes in one batch with its siblings)
+        dict(base, W=2, conc=4, conc_after=1, ranks=ranks([3, 5, 2, 7, 4, 6, 1, 2], [2, 2, 3, 1, 5])),
+        dict(base, W=2, conc_after=1, budget=64, ranks=ranks([3, 5, 2, 7, 4, 6, 1, 2], [2, 2, 3, 1, 5])),
     ]
 
 
@@ -161,11 +172,14 @@ def run_take(wl, path, mode, sched, seed=0, write_policy=None):
 
     def fn(r):
         st = build_state(wl, r)
+        mine = path if (r == 0 or not wl.get("diverge")) else f"{path}__arg_of_rank{r}"
         if mode == "sync":
-            Snapshot.take(path, st, replicated=repl)
+            Snapshot.take(mine, st, replicated=repl)
         else:
-            pending = Snapshot.async_take(path, st, replicated=repl)
+            pending = Snapshot.async_take(mine, st, replicated=repl)
             world.event("async_take_returned")
+            if wl.get("conc_after"):
+                os.environ["TORCHSNAPSHOT_MAX_PER_RANK_IO_CONCURRENCY_OVERRIDE"] = str(wl["conc_after"])
             try:
                 pending.wait()
             except Exception:
